@@ -257,6 +257,11 @@ func c07LegacyMatch(t *rapid.T) map[string]string {
 func c07LegacyMatchRE(t *rapid.T) map[string]*ref.Re {
 	m := map[string]*ref.Re{}
 	n := rapid.IntRange(1, 2).Draw(t, "nMatchRE")
+	if rapid.IntRange(0, 7).Draw(t, "yamlNullish") == 0 {
+		// a regexp that YAML reads as null unless quoted ("null", "~"): the loader takes a different decoding path for it
+		m[rapid.SampledFrom(UniNames).Draw(t, "matchREName")] = &ref.Re{Op: "lit", Lit: rapid.SampledFrom([]string{"null", "~"}).Draw(t, "nullish")}
+		return m
+	}
 	for i := 0; i < n; i++ {
 		m[rapid.SampledFrom(UniNames).Draw(t, "matchREName")] = drawReRoot(t, uniAlphabet, rapid.IntRange(0, 2).Draw(t, "depth"))
 	}
